@@ -10,6 +10,11 @@ import (
 )
 
 func validateEnums(env *Environment, errorSink *validation.ErrorSink) *Environment {
+	if len(errorSink.Errors) > 0 {
+		// Only perform this if all types are resolved and free of cycles
+		return env
+	}
+
 	Visit(env, func(self Visitor, node Node) {
 		enum, ok := node.(*EnumDefinition)
 		if !ok {
